@@ -30,6 +30,7 @@ type WriteSet struct {
 	Boxes  map[*ssa.Alloc]bool   // heap allocs of this function written directly
 	Params map[int]bool          // writes through pointer parameter i (non-struct deref)
 	Globs  map[*ssa.Global]bool
+	freshIn func(*ssa.Alloc) bool
 }
 
 func newWriteSet() *WriteSet {
@@ -122,6 +123,9 @@ func (e *Engine) classifyAddr(addr ssa.Value, w *WriteSet, fn *ssa.Function) {
 	switch a := addr.(type) {
 	case *ssa.Alloc:
 		if a.Heap {
+			if w.freshIn != nil && w.freshIn(a) {
+				return // object allocated inside the region: invisible to the state before it
+			}
 			w.Boxes[a] = true
 			e.addAllocHeapKeys(a, w)
 		} else {
@@ -139,6 +143,9 @@ func (e *Engine) classifyAddr(addr ssa.Value, w *WriteSet, fn *ssa.Function) {
 		}
 		if al, ok := root.(*ssa.Alloc); ok && !al.Heap {
 			w.Cells[al] = true
+			return
+		}
+		if al, ok := root.(*ssa.Alloc); ok && al.Heap && w.freshIn != nil && w.freshIn(al) {
 			return
 		}
 		// heap field of the outermost struct in the chain that is addressed by a real pointer
@@ -227,6 +234,12 @@ func (e *Engine) addPtrTargetKeys(pt types.Type, w *WriteSet) {
 // writeSetOfBlocks computes the write set of a set of blocks of fn.
 func (e *Engine) writeSetOfBlocks(fn *ssa.Function, blocks map[*ssa.BasicBlock]bool, visiting map[*ssa.Function]bool) *WriteSet {
 	w := newWriteSet()
+	w.freshIn = func(a *ssa.Alloc) bool {
+		if a.Parent() != fn {
+			return false
+		}
+		return blocks == nil || blocks[a.Block()]
+	}
 	for _, b := range fn.Blocks {
 		if blocks != nil && !blocks[b] {
 			continue
